@@ -56,10 +56,13 @@ mod raw {
         ];
         posix::poll(&mut fds, timeout)?;
 
+        // POLLERR counts as ready: it is what poll() reports for a pipe whose
+        // other end is gone, and the following read/write returns the actual
+        // error.  Ignoring it made such a stream look like a timeout.
         Ok((
-            fds[0].test(posix::POLLOUT | posix::POLLHUP),
-            fds[1].test(posix::POLLIN | posix::POLLHUP),
-            fds[2].test(posix::POLLIN | posix::POLLHUP),
+            fds[0].test(posix::POLLOUT | posix::POLLHUP | posix::POLLERR),
+            fds[1].test(posix::POLLIN | posix::POLLHUP | posix::POLLERR),
+            fds[2].test(posix::POLLIN | posix::POLLHUP | posix::POLLERR),
         ))
     }
 
